@@ -14,6 +14,7 @@ RULE = (
     "Near-miss strings (count 0/16, 2^32/2^48/2^64, 2-digit revision, newline/space/tab, signs, empty parts, case, prefix, non-ASCII digits, NUL, hex) "
     "applied at every field position of three base SIDs must raise ValueError, and the well-formed SID converted right after each rejected string must still be exact. Non-trivial: the real builder returned bytes (grid) / the real "
     "parser was given the string (near-miss); distinct by SID string."
+    ' Also well-formed SID strings of EVERY length 7..170 through the descriptor codec and through protect -> blob -> unprotect (sync and async).'
 )
 ASSUME = ["ref/dtyp.py calibrated on the real SD in tests/data/seed_key.json", "leading zeros are neither demanded nor forbidden (either rejection or the numerically equal SID is accepted)"]
 BOUND = {"quick": "R in {0,1,9}, n in {1,2,5,14,15}", "thorough": "R in 0..9, n in 1..15"}
